@@ -3,7 +3,7 @@ EXTENDS Limits
 AllShapes == {"locals", "upvalues", "constants", "numconsts", "items-tail", "args", "params", "returns", "jump-forward", "jump-back",
               "big-function", "nest-do", "nest-paren", "nest-table", "nest-func", "nest-if", "concat-chain", "index-chain", "call-chain",
               "pcall-depth", "tostring-depth", "lua-recursion", "gsub-depth", "long-string", "long-name", "bracket-level", "unpack",
-              "unary-chain", "pow-chain", "nest-call", "nest-index", "call-suffix", "index-suffix", "method-suffix", "and-chain", "elseif-chain"} \cup RecShapes
+              "unary-chain", "pow-chain", "nest-call", "nest-index", "call-suffix", "index-suffix", "method-suffix", "and-chain", "elseif-chain", "nested-fn-chains"} \cup RecShapes
 Around(l) == (l - 2)..(l + 2)
 SizesQ == {1, 2, 10, 100} \cup Around(200) \cup Around(255) \cup Around(1000) \cup {5000} \cup Around(32767) \cup {40000} \cup Around(65535) \cup {100000}
 SizesT == SizesQ \cup Around(127) \cup Around(249) \cup Around(512) \cup Around(16383) \cup {20000, 50000, 70000, 200000, 1000000}
